@@ -67,27 +67,11 @@ func genC01(t *rapid.T) *vnet.Scenario {
 	// timeouts, at the start or after every few messages, while the peer
 	// keeps sending: the receive buffer (N packets) is full and the receive
 	// loop has to hold the next packet
-	if rapid.IntRange(0, 3).Draw(t, "slow_reader") == 0 {
-		maxResend := int(sc.Client.InitialResend() / time.Millisecond)
-		if r := int(sc.Server.InitialResend() / time.Millisecond); r > maxResend {
-			maxResend = r
-		}
-		mk := func(label string) *vnet.SlowRecv {
-			return &vnet.SlowRecv{
-				StartMs: rapid.SampledFrom([]int{0, maxResend / 2, 2 * maxResend, 5 * maxResend}).Draw(t, label+"_start"),
-				EveryN:  rapid.SampledFrom([]int{1, 2, sc.N, sc.N + 1, 3 * sc.N}).Draw(t, label+"_every"),
-				PauseMs: rapid.SampledFrom([]int{0, 1, maxResend, 3 * maxResend}).Draw(t, label+"_pause"),
-			}
-		}
-		switch rapid.IntRange(0, 2).Draw(t, "slow_dir") {
-		case 0:
-			sc.SlowRecvC2S = mk("slow_c2s")
-		case 1:
-			sc.SlowRecvS2C = mk("slow_s2c")
-		default:
-			sc.SlowRecvC2S, sc.SlowRecvS2C = mk("slow_c2s"), mk("slow_s2c")
-		}
+	maxResend := int(sc.Client.InitialResend() / time.Millisecond)
+	if r := int(sc.Server.InitialResend() / time.Millisecond); r > maxResend {
+		maxResend = r
 	}
+	drawSlowReaders(t, sc, maxResend)
 	return sc
 }
 
